@@ -11,6 +11,7 @@ PROPS["C16"] = {
     "assumptions": ["a value returned by Get must come from a fetch invocation for that key that completed before the Get returned, or from a SetMap",
                     "after a successful Get returned, a later Get of the key (no SetMap in between) must observe the same value without invoking its fetch function"],
     "legs": [
+        {"fam": "concfam", "run": "^TestC16_patch$", "race": True},
         {"fam": "concfam", "run": "^TestC16_cache$", "race": True},
         {"fam": "concfam", "run": "^TestC16_scan$", "race": True, "shards": 2},
     ],
